@@ -59,17 +59,18 @@ type Case struct {
 	Kind string `json:"kind"` // w c f h
 	Gen  string `json:"gen,omitempty"`
 	// w, f
-	Fmt     int      `json:"fmt"`
-	Table   []Entry  `json:"table,omitempty"`
-	TabNil  bool     `json:"table_nil,omitempty"` // Event.Formatted == nil
-	WNil    bool     `json:"writer_nil,omitempty"`
-	ENil    bool     `json:"event_nil,omitempty"`
-	Beh     string   `json:"beh,omitempty"`         // ok fail0 failhalf failfull shorthalf short0 over
-	WFunc   bool     `json:"writer_func,omitempty"` // the accepting writer is a func value (value receiver) instead of a pointer
-	Seq     []string `json:"seq,omitempty"`         // w: this call is the last of a sequence on ONE sink; behaviours of the earlier calls
-	Stagger int      `json:"stagger_ms,omitempty"`  // g: caller i enters Process i*stagger ms after the barrier (overlapping, not simultaneous)
-	CtxKind string   `json:"ctx_kind,omitempty"`    // w c f: the context handed to Process: "" background, live, cancelled, past-deadline, custom (Err() != nil)
-	Err     string   `json:"err,omitempty"`         // which error VALUE a failing writer returns (see writerErrors); "" = a private error
+	Fmt       int      `json:"fmt"`
+	Table     []Entry  `json:"table,omitempty"`
+	TabNil    bool     `json:"table_nil,omitempty"` // Event.Formatted == nil
+	WNil      bool     `json:"writer_nil,omitempty"`
+	ENil      bool     `json:"event_nil,omitempty"`
+	Beh       string   `json:"beh,omitempty"`         // ok fail0 failhalf failfull shorthalf short0 over
+	WFunc     bool     `json:"writer_func,omitempty"` // the accepting writer is a func value (value receiver) instead of a pointer
+	Seq       []string `json:"seq,omitempty"`         // w: this call is the last of a sequence on ONE sink; behaviours of the earlier calls
+	Stagger   int      `json:"stagger_ms,omitempty"`  // g: caller i enters Process i*stagger ms after the barrier (overlapping, not simultaneous)
+	TimeoutNs int64    `json:"timeout_ns,omitempty"`  // h g: the configured timeout in nanoseconds when it is not a whole number of ms (overrides timeout)
+	CtxKind   string   `json:"ctx_kind,omitempty"`    // w c f: the context handed to Process: "" background, live, cancelled, past-deadline, custom (Err() != nil)
+	Err       string   `json:"err,omitempty"`         // which error VALUE a failing writer returns (see writerErrors); "" = a private error
 	// c
 	Calls []Call `json:"calls,omitempty"`
 	// f: 0 /dev/null 1 stdout 2 stderr 3 file 4 failing file 5 no directory 6/7 stdout/stderr on /dev/full 8/9 stdout/stderr closed
@@ -563,8 +564,17 @@ type hobs struct {
 	Arm       int   `json:"arm"`
 	Delivered bool  `json:"delivered"`
 	Same      bool  `json:"same"`
-	Latency   int64 `json:"latency_ms"`
+	Latency   int64 `json:"latency_us"`
 }
+
+// the configured timeout, and its value in the model's unit (microseconds, rounded down: "returned a timeout error before that" stays certain)
+func (c Case) timeoutDur() time.Duration {
+	if c.TimeoutNs > 0 {
+		return time.Duration(c.TimeoutNs)
+	}
+	return time.Duration(c.Timeout) * time.Millisecond
+}
+func (c Case) timeoutUs() int64 { return int64(c.timeoutDur() / time.Microsecond) }
 
 func execH(c Case) hobs {
 	prefill := &el.Event{Type: "prefill"}
@@ -621,7 +631,7 @@ func execH(c Case) hobs {
 		ch = make(chan *el.Event)
 		recv(at, 1)
 	}
-	cs, err := channel.NewChannelSink(ch, time.Duration(c.Timeout)*time.Millisecond)
+	cs, err := channel.NewChannelSink(ch, c.timeoutDur())
 	if err != nil {
 		panic(err)
 	}
@@ -664,7 +674,7 @@ func execH(c Case) hobs {
 		}
 		break
 	}
-	o := hobs{Latency: lat.Milliseconds(), Arm: 3}
+	o := hobs{Latency: lat.Microseconds(), Arm: 3}
 	switch {
 	case perr == nil && out == nil:
 		o.Arm = 0
@@ -696,6 +706,12 @@ type customCtx struct {
 func (c *customCtx) Done() <-chan struct{} { return c.done }
 func (c *customCtx) Err() error            { return c.err }
 
+func optZus(v int) string {
+	if v < 0 {
+		return "None"
+	}
+	return "(Some " + hc.Z(int64(v)*1000) + ")"
+}
 func optZ(v int) string {
 	if v < 0 {
 		return "None"
@@ -723,7 +739,7 @@ func hParams(c Case) (chanAt, ctxAt int) {
 }
 func litH(c Case, o hobs) string {
 	ca, xa := hParams(c)
-	return fmt.Sprintf("(%s, CH (Build_hcase %s %s %s %s (Build_hobs %s %s %s %s)))", hc.N(c.ID), hc.Z(int64(c.Timeout)), optZ(ca), optZ(xa), hc.Z(int64(c.Slack)),
+	return fmt.Sprintf("(%s, CH (Build_hcase %s %s %s %s (Build_hobs %s %s %s %s)))", hc.N(c.ID), hc.Z(c.timeoutUs()), optZus(ca), optZus(xa), hc.Z(int64(c.Slack)*1000),
 		hc.N(o.Arm), hc.B(o.Delivered), hc.B(o.Same), hc.Z(o.Latency))
 }
 
@@ -945,7 +961,7 @@ type gobs struct {
 	Hung        int    `json:"hung"`
 	DeliveredOK bool   `json:"delivered_ok"`
 	Early       bool   `json:"early"`
-	Latency     int64  `json:"latency_ms"`
+	Latency     int64  `json:"latency_us"`
 	Dump        string `json:"goroutine_dump,omitempty"`
 }
 
@@ -980,7 +996,7 @@ func execGRound(c Case) gobs {
 	prefill := &el.Event{Type: "prefill"}
 	ch := make(chan *el.Event, c.Free+1)
 	ch <- prefill
-	cs, err := channel.NewChannelSink(ch, time.Duration(c.Timeout)*time.Millisecond)
+	cs, err := channel.NewChannelSink(ch, c.timeoutDur())
 	if err != nil {
 		panic(err)
 	}
@@ -1021,7 +1037,7 @@ func execGRound(c Case) gobs {
 	ready.Wait()
 	o := gobs{Arms: []int{}, DeliveredOK: true}
 	okCaller := map[int]bool{}
-	watchdog := time.After(50*time.Duration(c.Timeout+20)*time.Millisecond + time.Second + time.Duration(c.N*c.Stagger)*time.Millisecond)
+	watchdog := time.After(50*(c.timeoutDur()+20*time.Millisecond) + time.Second + time.Duration(c.N*c.Stagger)*time.Millisecond)
 collect:
 	for got := 0; got < c.N; got++ {
 		select {
@@ -1030,11 +1046,11 @@ collect:
 			if r.arm == 0 {
 				okCaller[r.i] = true
 			}
-			if r.arm == 2 && r.lat < time.Duration(c.Timeout)*time.Millisecond {
+			if r.arm == 2 && r.lat < c.timeoutDur() {
 				o.Early = true
 			}
-			if r.lat.Milliseconds() > o.Latency {
-				o.Latency = r.lat.Milliseconds()
+			if r.lat.Microseconds() > o.Latency {
+				o.Latency = r.lat.Microseconds()
 			}
 		case <-watchdog:
 			o.Hung = c.N - got
@@ -1073,7 +1089,7 @@ collect:
 	return o
 }
 func litG(c Case, o gobs) string {
-	return fmt.Sprintf("(%s, CG (Build_gcase %s %s %s (Build_gobs %s %s %s %s %s)))", hc.N(c.ID), hc.N(c.Free), hc.N(c.N), hc.Z(int64(c.Timeout)),
+	return fmt.Sprintf("(%s, CG (Build_gcase %s %s %s (Build_gobs %s %s %s %s %s)))", hc.N(c.ID), hc.N(c.Free), hc.N(c.N), hc.Z(c.timeoutUs()),
 		nlist(o.Arms), hc.N(o.Hung), hc.B(o.DeliveredOK), hc.B(o.Early), hc.Z(o.Latency))
 }
 
@@ -1168,7 +1184,7 @@ func (e *emitter) run(c Case) {
 		o := execH(c)
 		ca, xa := hParams(c)
 		amb := ""
-		if ambiguous(c.Timeout, ca, xa, c.Slack) {
+		if ambiguous(int(c.timeoutUs()/1000), ca, xa, c.Slack) {
 			amb = ":ambiguous"
 		}
 		e.record(c, litH(c, o), fmt.Sprintf("h:arm%d%s", o.Arm, amb), true)
@@ -1370,6 +1386,8 @@ func genF(e *emitter) {
 	}
 }
 
+var subMilliRepeat = 12
+
 func genH(e *emitter, repeat int) {
 	const short, long = 30, 5000
 	type ch struct {
@@ -1410,6 +1428,20 @@ func genH(e *emitter, repeat int) {
 		}
 		for _, x := range []cx{{"none", -1}, {"live", -1}, {"cancel", long}} {
 			cases = append(cases, Case{Kind: "h", Gen: "tiny-timeout", Timeout: 1, Chan: k, ChanAt: at, Ctx: x.k, CtxAt: x.at, Slack: 1000})
+		}
+	}
+	// sub-millisecond and non-integral timeouts: 1 ns, 500 us, 999 us, 1.5 ms.  A timeout error may never come back before the configured
+	// timeout has elapsed (measured around the call: certain); with room in the channel the hand-over is what happens
+	for rep := 0; rep < subMilliRepeat; rep++ {
+		for _, ns := range []int64{1, 500_000, 999_000, 1_500_000} {
+			for _, k := range []string{"empty", "waiting", "full", "nobody"} {
+				for _, x := range []string{"none", "live"} {
+					if rep > 2 && (k == "full" || k == "nobody") {
+						continue
+					}
+					cases = append(cases, Case{Kind: "h", Gen: "sub-millisecond", TimeoutNs: ns, Chan: k, ChanAt: -1, Ctx: x, CtxAt: -1, Slack: 1000})
+				}
+			}
 		}
 	}
 	// the constructor refuses what Process could not honour: no channel, a timeout of 0 or less
